@@ -397,6 +397,9 @@ void janet_bytecode_movopt(JanetFuncDef *def) {
     }
 }
 
+/* Largest frame size janet_verify accepts (all 24 bit slot indices). */
+#define JANET_VERIFY_MAX_SLOTS 0x1000000
+
 /* Verify some bytecode */
 int janet_verify(JanetFuncDef *def) {
     int vargs = !!(def->flags & JANET_FUNCDEF_FLAG_VARARG);
@@ -405,6 +408,11 @@ int janet_verify(JanetFuncDef *def) {
     int32_t sc = def->slotcount;
 
     if (def->bytecode_length == 0) return 1;
+
+    /* Slot operands are at most 24 bits wide, so no instruction can address a slot
+     * beyond that. Larger (forged) slot counts overflow the 32 bit stack arithmetic
+     * in janet_fiber_funcframe. */
+    if (sc < 0 || sc > JANET_VERIFY_MAX_SLOTS) return 2;
 
     if (maxslot > sc) return 2;
 
